@@ -98,3 +98,70 @@ func H_C17_jsonsafe_array_r2() { c17nest(2) }
 // H_C17_jsonsafe_array_r3: rank 3.
 //vsym:prop=C17 tier=quick ints=int floats=real
 func H_C17_jsonsafe_array_r3() { c17nest(3) }
+
+// c17nonfiniteArray: JsonSafeArray on arrays whose cells are ARBITRARY IEEE-754 doubles (any mix
+// of finite values, NaN, +Inf, -Inf, in any position): every leaf is the string NaN / +Inf / -Inf
+// exactly when the element is that value, and the element itself (bit-identical) otherwise.
+// Extents: rank 1 up to 3, rank 2 up to 2 x 2.
+func c17nonfiniteArray(rank int) {
+	dims := make([]int, rank)
+	for i := range dims {
+		d := vsym.Int("dim")
+		if rank == 1 {
+			vsym.Assume(d >= 1 && d <= 3)
+		} else {
+			vsym.Assume(d >= 1 && d <= 2)
+		}
+		dims[i] = vsym.Concrete(d)
+	}
+	root := data.NewArrayFloat64(dims)
+	size := 1
+	for _, d := range dims {
+		size *= d
+	}
+	idx := make([]int, rank)
+	for k := 0; k < size; k++ {
+		root.Set(idx, vsym.Float64("cell"))
+		data.Increment(idx, dims)
+	}
+	res := JsonSafeArray(root, 0)
+	vsym.Reach("converted")
+	var walk func(v interface{}, depth int, at []int)
+	walk = func(v interface{}, depth int, at []int) {
+		if depth == rank {
+			x := root.Get(at)
+			s, isStr := v.(string)
+			f, isNum := v.(float64)
+			if math.IsNaN(x) {
+				vsym.Assert(isStr && s == "NaN", "nan-element-encoded-as-string-NaN")
+			} else if math.IsInf(x, 1) {
+				vsym.Assert(isStr && s == "+Inf", "plus-infinity-element-encoded-as-string")
+			} else if math.IsInf(x, -1) {
+				vsym.Assert(isStr && s == "-Inf", "minus-infinity-element-encoded-as-string")
+			} else {
+				vsym.Assert(isNum && f == x, "finite-element-unchanged")
+			}
+			return
+		}
+		l, ok := v.([]interface{})
+		vsym.Assert(ok && len(l) == dims[depth], "nesting-level-has-extent-of-dimension")
+		if !ok {
+			return
+		}
+		for i := 0; i < len(l) && i < dims[depth]; i++ {
+			at2 := make([]int, rank)
+			copy(at2, at)
+			at2[depth] = i
+			walk(l[i], depth+1, at2)
+		}
+	}
+	walk(res, 0, make([]int, rank))
+}
+
+// H_C17_jsonsafe_array_nonfinite_r1: see c17nonfiniteArray, rank 1.
+//vsym:prop=C17 tier=quick ints=int floats=fp maxruns=2000
+func H_C17_jsonsafe_array_nonfinite_r1() { c17nonfiniteArray(1) }
+
+// H_C17_jsonsafe_array_nonfinite_r2: rank 2.
+//vsym:prop=C17 tier=quick ints=int floats=fp maxruns=4000
+func H_C17_jsonsafe_array_nonfinite_r2() { c17nonfiniteArray(2) }
